@@ -210,10 +210,9 @@ pub fn vx_without_suffix(rest: &String, tail: &String) -> (r: String)
     requires tail@.len() <= rest@.len() && tail@ == rest@.skip(rest@.len() - tail@.len())
     ensures r@ == rest@.take(rest@.len() - tail@.len())
 { rest[..rest.len() - tail.len()].to_string() }
-// tools::get_user_home(): the HOME directory (environment lookup; stable during the pass: assumed)
-pub uninterp spec fn spec_home() -> Seq<char>;
-#[verifier::external_body]
-pub fn get_user_home() -> (r: String) ensures r@ == spec_home() { unimplemented!() }
+// tools::get_user_home() (verified below against this): the value of HOME in the process environment as it is NOW -- looked up on every call --, nothing when unset
+pub open spec fn spec_home() -> Seq<char> { match spec_penv("HOME"@) { Some(v) => v, None => Seq::empty() } }
+//@FN get_user_home
 // &text[1..] of a word that starts with the one-byte char `~`: the text behind it
 #[verifier::external_body]
 pub fn vx_after_tilde(text: &String) -> (r: &str)
@@ -504,6 +503,9 @@ def text_pass(name, cond, label_props, inner_dec=None, extra_pre=()):
         loops=loops)
 
 
+get_user_home = Fn('src/tools.rs', 'get_user_home', ret='r', props=('C12', 'C09'),
+    pre_rewrites=[Rw(r'env::var\(', 'vx_env_var(', regex=True, rule='R8', why='std::env::var through a shim over the process environment')],
+    ensures=[('C12+C09.home.the_home_directory_is_the_current_value_of_HOME', 'r@ == spec_home()')])
 expand_home = text_pass('expand_home', 'unq(T) && T.1@.len() > 0 && T.1@[0] == \'~\'', 'C12+C13+C01',
     extra_pre=[Rw('tools::get_user_home()', 'get_user_home()', rule='R0'),
                Rw('&text[1..]', 'vx_after_tilde(text)', rule='R12', why='byte slice behind the leading one-byte `~`')])
@@ -578,13 +580,13 @@ do_expansion = Fn(S, 'do_expansion', add_params='Tracked(tr): Tracked<&mut PassT
               'final(tr).t == old(tr).t || final(tr).t == old(tr).t + seq![0int, 1int, 2int, 3int, 4int, 5int, 6int]')],
 )
 
-UNIT = Unit('U-EXP2', TEMPLATE, fns=[common.has_operator_fn(), common.in_assignment_prefix_fn(), add_alias, is_alias, remove_alias, get_alias_content, get_alias_list, get_env, format_alias, expand_one_env, expand_alias, expand_home, written, expand_env, do_expansion],
+UNIT = Unit('U-EXP2', TEMPLATE, fns=[common.has_operator_fn(), common.in_assignment_prefix_fn(), get_user_home, add_alias, is_alias, remove_alias, get_alias_content, get_alias_list, get_env, format_alias, expand_one_env, expand_alias, expand_home, written, expand_env, do_expansion],
             types=[TypeItem('src/types.rs', 'struct', 'LineInfo'), TypeItem('src/types.rs', 'struct', 'Job'),
                    TypeItem('src/shell.rs', 'struct', 'Shell', rewrites=[Rw('types::Job', 'Job', rule='R0')])],
             props=('C17', 'C10', 'C12', 'C13', 'C01', 'C05'))
 TRUSTED = common.TRUSTED_STR + common.TRUSTED_TOKEN + [
     'HashMap<String,String> insert/contains_key/remove/get: std contracts stated over the string views (shims)',
     'parse_line is external here: the tokenization of an alias value is an uninterpreted function of the value',
-    'env_in_word (the gate of expand_env) and the captures of expand_one_env are uninterpreted (regex crate); get_user_home is an environment lookup (assumed stable during the pass)',
+    'env_in_word (the gate of expand_env) and the captures of expand_one_env are uninterpreted (regex crate); get_user_home is under contract (the current value of HOME, looked up on every call); the environment is constant during one pass (single thread)',
     'split_first_substitution is external here: its contract (head a prefix without an opening, tail a proper suffix) is the one proved in U-EXP3',
 ]
